@@ -152,6 +152,33 @@ fork / code kind an action was emitted (so the flag was observed) -/
 theorem static_inherited_table : Gen.staticChild.all childOk = true := by
   decide +kernel
 
+/-! ## from instructions to journal operations -/
+
+/-- the `Host` calls of the unguarded state-reading opcodes (BALANCE, SELFBALANCE, EXTCODESIZE / EXTCODECOPY /
+EXTCODEHASH, SLOAD, TLOAD) are operations the frame theorem allows, for every frame address and argument -/
+theorem static_instr_ops_allowed (base op : Nat) (self : Addr) (arg : Nat) :
+    allowedAll base (readOps op self arg) = true := by
+  unfold readOps
+  repeat' split
+  all_goals simp [allowedAll, allowed]
+
+/-- **Every call action a static instruction can emit leads `make_call_frame` only to allowed operations**: for
+all stacks, gas values and forks, if `stepStatic` emits a call with scheme `s` from the frame running as `self`
+towards `to` with a 256-bit `value` (zero exactly when the model says so), then `load_account_delegated`,
+`checkpoint`, the touch (value 0) or the transfer (CALLCODE: `self → self`), and `load_code` are all allowed —
+a CALL / EXTCALL with value never gets here. -/
+theorem static_action_ops_allowed (base spec gas op : Nat) (eof : Bool) (stack : List Nat) (o : StepOut) (a : Act)
+    (h : stepStatic spec eof op gas stack = some o) (ha : o.act = some a)
+    (self to : Addr) (value : Nat) (hv : value < W) (hz : a.valueZero = decide (value = 0)) :
+    allowedAll base (callFrameOps a.scheme self to value) = true := by
+  have hsafe := static_step_actions spec gas op eof stack o h
+  simp only [StepOut.mutatingAction, ha] at hsafe
+  by_cases hv0 : value = 0
+  · subst hv0
+    cases hsch : a.scheme <;> simp [callFrameOps, allowedAll, allowed]
+  · have hz' : a.valueZero = false := by simp [hz, hv0]
+    cases hsch : a.scheme <;> simp_all [callFrameOps, allowedAll, allowed]
+
 /-! ## 3. frames -/
 
 /-- **Every operation left to a static frame preserves the world state.** `allowed` lists them (loads, SLOAD,
@@ -210,6 +237,9 @@ example : (run exDb exRun exOps).isSome = true := by decide +kernel
 example : ((run exDb exRun exOps).map fun r => (r.js.state 5).isSome) = some true := by decide +kernel
 example : guarded 0x55 = true ∧ Spec.Activation.undefinedIn 17 0x5d = false ∧ 0xec ∈ eofExecuted := by decide
 example : stepStatic 17 false 0xf1 0 [0, 0xb0, 1] = some { res := .callNotAllowed } := by decide
+/-- CALLCODE with value 3 in a static frame: an action is emitted and its frame operations are allowed -/
+example : (stepStatic 17 false 0xf2 0 [0, 0xb0, 3, 0, 0, 0, 0]).map (·.act.isSome) = some true ∧
+    callFrameOps .callCode 5 0xb0 3 = [.loadDelegated 0xb0, .checkpoint, .transfer 5 5 3, .loadCode 0xb0] := by decide
 example : (Gen.staticTable.filter (fun r => r.1 = 17)).length = 4 := by decide +kernel
 
 end Revm.Props.C10
